@@ -38,6 +38,7 @@ import Pumpkin.Model.Predicate
 import Pumpkin.Model.Branching
 import Pumpkin.Model.Drcp
 import Pumpkin.Model.Dimacs
+import Pumpkin.Model.ImplicitReason
 import Pumpkin.Check.Rup
 import Pumpkin.Check.MaxSat
 import Pumpkin.Check.DrcpCheck
@@ -414,6 +415,20 @@ def respond (st : St) (line : String) : St × Option String :=
            | .clauseCount e p => s!"err clauseCount {e} {p}"
        if model == impl then (st, some s!"ok dimacs {(model.splitOn " ").take 2}")
        else (st, some s!"FAIL dimacs model=[{model}] impl=[{impl}]"))
+  | "implicit" :: rest =>
+    -- `implicit <trail atom> <queried atom> <n> <reason atoms>`: exact correspondence with
+    -- Model/ImplicitReason (the reason the real conflict analysis derived for a predicate that is
+    -- not literally on the trail)
+    (match (do
+        let (t, r1) ← pAtom rest
+        let (q, r2) ← pAtom r1
+        let (rs, _) ← pList pAtom r2
+        pure (t, q, rs)) with
+     | none => (st, some "FAIL implicit unparsed")
+     | some (t, q, rs) =>
+       match Pumpkin.Implicit.implicitReason t q with
+       | some m => if m == rs then (st, some "ok implicit") else (st, some s!"FAIL implicit model={repr m} impl={repr rs}")
+       | none => (st, some s!"FAIL implicit model-has-no-reason-for trail={repr t} queried={repr q} impl={repr rs}"))
   | "litsok" :: _ => (st, some "ok litsok")
   | "negok" :: _ => (st, some "ok negok")
   | "panic" :: _ | "nonterm" :: _ | "partial" :: _ | "bad" :: _ | "branchviolation" :: _ | "hang" :: _ =>
